@@ -93,8 +93,11 @@ class Interp:
 
         x0, x1 = self.xs[prev_idx : prev_idx + 2]
         y0, y1 = self.ys[prev_idx : prev_idx + 2]
+        t = (x - x0) / (x1 - x0)
 
-        return y0 + (y1 - y0) * (x - x0) / (x1 - x0)
+        # convex combination: returns y0 and y1 exactly at the nodes
+        # (y0 + (y1 - y0) * 1.0 is only y1 up to a rounding of y0)
+        return y0 * (1 - t) + y1 * t
 
     def _lagrange(self, x):
 
